@@ -275,6 +275,20 @@ let handle_io (toks : string list) : string =
          Printf.sprintf "%s | %s | %s"
            (match res with Ok r -> "OK " ^ str_omsg r | Err _ -> "ER")
            (hex_of_bytes p'.pt_out.w_out) (hex_of_bytes p'.pt_in.r_content))
+  | ["TMS"; n; st] ->
+    (* n state queries in a row on one bus, each answered by a report of that state: from the model's trace, which
+       exchanges sleep at least 100 ms after their reply *)
+    let n = int_of_string n in
+    let reply = encode_nl (frame_of_msg (msg_of_str ("RS.3." ^ st))) in
+    let p = { pt_in = { r_content = List.concat (List.init n (fun _ -> reply)); r_sched = [] };
+              pt_out = { w_out = []; w_sched = [] } } in
+    (match serial_trace (List.init n (fun _ -> msg_of_str "QS.3")) p with
+     | None -> "FUEL"
+     | Some t ->
+       let gaps = List.map (fun (_, g) -> int_of_n g >= 100) (write_gaps t) in
+       let paced = List.length (List.filter (fun b -> b) gaps) in
+       let rec first i = function [] -> "-" | b :: r -> if b then first (i + 1) r else string_of_int i in
+       Printf.sprintf "n=%d paced=%d first-unpaced=%s" n paced (first 1 gaps))
   | "SBS" :: k :: rest ->
     let k = int_of_string k in
     let rec take n l = if n = 0 then ([], l) else match l with x :: t -> let (a, b) = take (n - 1) t in (x :: a, b) | [] -> failwith "SBS" in
